@@ -16,7 +16,10 @@ def run(sb, pid, tier, seed):
     d = props.scratch_copy()
     try:
         env = dict(os.environ, PYTHONPATH=d, PYTHONDONTWRITEBYTECODE="1", VERIF_SEED=str(seed), VERIF_TIER=tier)
-        p = subprocess.run(["/venv/bin/python", os.path.join(HERE, "bounded_impl", name + ".py")],
+        script = [os.path.join(HERE, "bounded_impl", name + ".py")]
+        if name == "scenarios":
+            script = [os.path.join(HERE, "replay", "battery.py"), pid]
+        p = subprocess.run(["/venv/bin/python"] + script,
                            capture_output=True, text=True, env=env, cwd=d, timeout=1500)
         try:
             out = json.loads(p.stdout.strip().splitlines()[-1])
